@@ -1,4 +1,184 @@
+/-
+  C03 — same files and configuration always give byte-identical output.
+
+  The model is a function: given the same bytes it returns the same bytes. What could make the *code* differ
+  from run to run is hash-map iteration order; every `range` over a map in the modelled packages is either
+  parameterised in the model by an explicit order (`Parser.Ord`) or shown here not to matter:
+
+  * `parseLine` ranges over the map of directive patterns: the recognisers are pairwise disjoint
+    (`C03_classification_unambiguous`), so the order in which they are tried is irrelevant;
+  * `complete` ranges over the flag set: `C02_flags_order_free`;
+  * `buildIncludeExceptString` ranges over the line map and sorts by distinct indices (modelled by its result,
+    `dedupLast`/`filter`; C06);
+  * `expandDefinitions` ranges three times over the definitions map: C07.
+
+  The list of map `range` sites is extracted from /repo's source on every run and compared with this list.
+-/
 import Crs.Parser
+import CrsProofs.Lines
+import CrsProps.C02
 namespace Crs.Props
-theorem C03_placeholder : True := trivial
+open Crs Crs.Pat Crs.Parser
+
+/-- which of the seven directive patterns of `parseLine` claim the (left-trimmed) line -/
+def claims (l : Bytes) : List String :=
+  (if comment? l then ["comment"] else []) ++
+  (if (include? l).isSome then ["include"] else []) ++
+  (if (includeExcept? l).isSome then ["include-except"] else []) ++
+  (if (definition? l).isSome then ["definition"] else []) ++
+  (if (flags? l).isSome then ["flags"] else []) ++
+  (if (prefix? l).isSome then ["prefix"] else []) ++
+  (if (suffix? l).isSome then ["suffix"] else [])
+
+private theorem dropWs_of_hash (r : Bytes) : dropWs ('#' :: r) = '#' :: r := by
+  simp [dropWs, List.dropWhile, isWs]
+
+private theorem stripPrefix_marker_gt (l r : Bytes) (h : stripPrefix? startMarker l = some r) : l = b!"##!>" ++ r :=
+  (stripPrefix?_some_iff _ _ _).mp h
+
+private theorem comment_false_of (c : Char) (r : Bytes) (hc : c = '^' ∨ c = '$' ∨ c = '+' ∨ c = '>' ∨ c = '<' ∨ c = '=') :
+    comment? ('#' :: '#' :: '!' :: c :: r) = false := by
+  unfold comment?
+  rw [dropWs_of_hash]
+  rcases hc with rfl | rfl | rfl | rfl | rfl | rfl <;> simp [marker, stripPrefix?]
+
+private theorem valueLine_shape (ch : Char) (l v : Bytes) (h : valueLine? ch l = some v) : ∃ r, l = '#' :: '#' :: '!' :: ch :: r := by
+  unfold valueLine? at h
+  split at h
+  · simp at h
+  · rename_i r hr
+    exact ⟨r, by have := (stripPrefix?_some_iff _ _ _).mp hr; simpa [marker] using this⟩
+
+private theorem gt_shape_of_include (l : Bytes) (h : (include? l).isSome) : ∃ r, l = '#' :: '#' :: '!' :: '>' :: r := by
+  unfold include? at h
+  split at h
+  · simp at h
+  · rename_i r hr; exact ⟨r, by have := stripPrefix_marker_gt l r hr; simpa using this⟩
+
+private theorem gt_shape_of_includeExcept (l : Bytes) (h : (includeExcept? l).isSome) : ∃ r, l = '#' :: '#' :: '!' :: '>' :: r := by
+  unfold includeExcept? at h
+  split at h
+  · simp at h
+  · rename_i r hr; exact ⟨r, by have := stripPrefix_marker_gt l r hr; simpa using this⟩
+
+private theorem gt_shape_of_definition (l : Bytes) (h : (definition? l).isSome) : ∃ r, l = '#' :: '#' :: '!' :: '>' :: r := by
+  unfold definition? at h
+  split at h
+  · simp at h
+  · rename_i r hr; exact ⟨r, by have := stripPrefix_marker_gt l r hr; simpa using this⟩
+
+/-- the keyword that follows `##!>` (after white space) decides among include / include-except / define -/
+private theorem include_kw (r : Bytes) (h : (include? ('#' :: '#' :: '!' :: '>' :: r)).isSome) :
+    ∃ c t, stripPrefix? b!"include" (dropWs r) = some (c :: t) ∧ isWs c = true := by
+  unfold include? at h
+  have : stripPrefix? startMarker ('#' :: '#' :: '!' :: '>' :: r) = some r := by simp [startMarker, stripPrefix?]
+  rw [this] at h
+  simp only at h
+  split at h
+  · simp at h
+  · rename_i r1 hr1
+    split at h
+    · simp at h
+    · rename_i c t
+      split at h
+      · simp at h
+      · rename_i hc
+        exact ⟨c, t, hr1, by simpa using hc⟩
+
+private theorem includeExcept_kw (r : Bytes) (h : (includeExcept? ('#' :: '#' :: '!' :: '>' :: r)).isSome) :
+    ∃ t, stripPrefix? b!"include-except" (dropWs r) = some t := by
+  unfold includeExcept? at h
+  have : stripPrefix? startMarker ('#' :: '#' :: '!' :: '>' :: r) = some r := by simp [startMarker, stripPrefix?]
+  rw [this] at h
+  simp only at h
+  split at h
+  · simp at h
+  · rename_i r1 hr1; exact ⟨r1, hr1⟩
+
+private theorem definition_kw (r : Bytes) (h : (definition? ('#' :: '#' :: '!' :: '>' :: r)).isSome) :
+    ∃ t, stripPrefix? b!"define" (dropWs r) = some t := by
+  unfold definition? at h
+  have : stripPrefix? startMarker ('#' :: '#' :: '!' :: '>' :: r) = some r := by simp [startMarker, stripPrefix?]
+  rw [this] at h
+  simp only at h
+  split at h
+  · simp at h
+  · rename_i r1 hr1; exact ⟨r1, hr1⟩
+
+/-- **C03 (unambiguous classification).** No line is claimed by two directive patterns: whichever order the
+    pattern map is iterated in, `parseLine` classifies every line the same way. -/
+theorem C03_classification_unambiguous (l : Bytes) : (claims l).length ≤ 1 := by
+  unfold claims
+  by_cases hfl : (flags? l).isSome
+  · obtain ⟨v, hv⟩ := Option.isSome_iff_exists.mp hfl
+    obtain ⟨r, rfl⟩ := valueLine_shape '+' l v hv
+    have h1 := comment_false_of '+' r (by simp)
+    simp [h1, include?, includeExcept?, definition?, prefix?, suffix?, valueLine?, startMarker, marker, stripPrefix?, hfl]
+  · by_cases hpf : (prefix? l).isSome
+    · obtain ⟨v, hv⟩ := Option.isSome_iff_exists.mp hpf
+      obtain ⟨r, rfl⟩ := valueLine_shape '^' l v hv
+      have h1 := comment_false_of '^' r (by simp)
+      simp [h1, include?, includeExcept?, definition?, flags?, suffix?, valueLine?, startMarker, marker, stripPrefix?, hpf]
+    · by_cases hsf : (suffix? l).isSome
+      · obtain ⟨v, hv⟩ := Option.isSome_iff_exists.mp hsf
+        obtain ⟨r, rfl⟩ := valueLine_shape '$' l v hv
+        have h1 := comment_false_of '$' r (by simp)
+        simp [h1, include?, includeExcept?, definition?, flags?, prefix?, valueLine?, startMarker, marker, stripPrefix?, hsf]
+      · simp only [hfl, hpf, hsf, Bool.false_eq_true, if_false, List.append_nil]
+        by_cases hin : (include? l).isSome
+        · obtain ⟨r, rfl⟩ := gt_shape_of_include l hin
+          have h1 := comment_false_of '>' r (by simp)
+          obtain ⟨c, t, hk, hc⟩ := include_kw r hin
+          have hnx : (includeExcept? ('#' :: '#' :: '!' :: '>' :: r)).isSome = false := by
+            cases hx : (includeExcept? ('#' :: '#' :: '!' :: '>' :: r)).isSome with
+            | false => rfl
+            | true =>
+              obtain ⟨t', ht'⟩ := includeExcept_kw r hx
+              have e1 := (stripPrefix?_some_iff _ _ _).mp hk
+              have e2 := (stripPrefix?_some_iff _ _ _).mp ht'
+              rw [e1] at e2
+              simp only [List.cons_append, List.nil_append, List.cons.injEq, true_and] at e2
+              rw [e2.1] at hc
+              simp [isWs] at hc
+          have hnd : (definition? ('#' :: '#' :: '!' :: '>' :: r)).isSome = false := by
+            cases hx : (definition? ('#' :: '#' :: '!' :: '>' :: r)).isSome with
+            | false => rfl
+            | true =>
+              obtain ⟨t', ht'⟩ := definition_kw r hx
+              have e1 := (stripPrefix?_some_iff _ _ _).mp hk
+              have e2 := (stripPrefix?_some_iff _ _ _).mp ht'
+              rw [e1] at e2
+              simp at e2
+          simp [h1, hin, hnx, hnd]
+        · by_cases hix : (includeExcept? l).isSome
+          · obtain ⟨r, rfl⟩ := gt_shape_of_includeExcept l hix
+            have h1 := comment_false_of '>' r (by simp)
+            obtain ⟨t, hk⟩ := includeExcept_kw r hix
+            have hnd : (definition? ('#' :: '#' :: '!' :: '>' :: r)).isSome = false := by
+              cases hx : (definition? ('#' :: '#' :: '!' :: '>' :: r)).isSome with
+              | false => rfl
+              | true =>
+                obtain ⟨t', ht'⟩ := definition_kw r hx
+                have e1 := (stripPrefix?_some_iff _ _ _).mp hk
+                have e2 := (stripPrefix?_some_iff _ _ _).mp ht'
+                rw [e1] at e2
+                simp at e2
+            simp [h1, hin, hix, hnd]
+          · by_cases hdf : (definition? l).isSome
+            · obtain ⟨r, rfl⟩ := gt_shape_of_definition l hdf
+              have h1 := comment_false_of '>' r (by simp)
+              simp [h1, hin, hix, hdf]
+            · simp only [hin, hix, hdf, Bool.false_eq_true, if_false, List.append_nil]
+              split <;> simp
+
+/-- the flag prefix does not depend on the order in which the flag set is iterated -/
+theorem C03_flags_order_free (fl fl' : List Char) (h : ∀ c, c ∈ fl ↔ c ∈ fl') : Asm.sortFlags fl = Asm.sortFlags fl' :=
+  C02_flags_order_free fl fl' h
+
+/-- non-vacuity / regression witness of D01: the comment that mentions an include is a comment and nothing else -/
+example : claims "##! x ##!> include inc".toList = ["comment"] ∧ claims "##!> include inc -- a b".toList = ["include"] ∧
+    claims "##!> include-except a b".toList = ["include-except"] ∧ claims "##!> define n v".toList = ["definition"] ∧
+    claims "##!+ is".toList = ["flags"] ∧ claims "foo".toList = [] := by
+  decide
+
 end Crs.Props
